@@ -44,15 +44,15 @@ Theorem C20_source_check_regex_is_model :
 Proof. exact small_check_regex_eq. Qed.
 
 Theorem C20_source_edit_terminal_set_is_model :
-  forall (isspace : N -> bool) (undef_str : str) set ls,
+  forall (re_search : str -> str -> bool) (isspace : N -> bool) (undef_str : str) set ls,
   Forall (line_ok isspace) ls ->
-  py_edit_terminal_set isspace undef_str (render ls) set = render (opt_filter (edit_set_line set) ls).
+  py_edit_terminal_set re_search isspace undef_str (render ls) set = render (opt_filter (edit_set_line set) ls).
 Proof. exact small_edit_terminal_set_eq. Qed.
 
 Theorem C20_source_edit_length_is_model :
-  forall (isspace : N -> bool) (undef_str : str) mn mx ls,
+  forall (re_search : str -> str -> bool) (isspace : N -> bool) (undef_str : str) mn mx ls,
   Forall (line_ok isspace) ls ->
-  py_edit_length isspace undef_str (render ls) mn mx =
+  py_edit_length re_search isspace undef_str (render ls) mn mx =
   match map_res (edit_length_line mn mx) ls with Ok ls' => Ok (render ls') | Raise => Raise end.
 Proof. exact small_edit_length_eq. Qed.
 
